@@ -138,7 +138,8 @@ impl Chitchat {
                     self.scheduled_for_deletion_nodes().collect();
                 let self_digest = self.compute_digest(&scheduled_for_deletion);
                 // 4 bytes of message header: magic number, protocol version and message tag.
-                let delta_mtu = MAX_UDP_DATAGRAM_PAYLOAD_SIZE - 4 - self_digest.serialized_len();
+                let delta_mtu = MAX_UDP_DATAGRAM_PAYLOAD_SIZE
+                    .saturating_sub(4 + self_digest.serialized_len());
                 let delta = self.cluster_state.compute_partial_delta_respecting_mtu(
                     &digest,
                     delta_mtu,
